@@ -25,6 +25,12 @@ METHODS = ["linear", "constant", "cubic", "spline"]
 def gen_direct(rng):
     n = rng.randint(4, 16)
     x = rng.increasing(n)
+    if rng.random() < 0.25:
+        # regularly sampled with a step that is not a binary fraction (np.linspace): new points that coincide with
+        # samples must still get the sample's own value
+        n = rng.choice([4, 10, 26, 49, 97])
+        lo = rng.choice([0.0, 5.0, -3.0])
+        x = [Fraction(float(v)) for v in np.linspace(lo, lo + rng.choice([1.0, 10.0, 24.0]), n)]
     affine = rng.random() < 0.25
     if affine:
         a, b0 = rng.dyadic(-16, 16, 4), rng.dyadic(-16, 16, 4)
@@ -43,8 +49,8 @@ def gen_direct(rng):
             pts.add(x[0] - rng.choice([Fraction(1, 2), 2, 5]))
         else:
             pts.add(x[-1] + rng.choice([Fraction(1, 2), 2, 5]))
-    if rng.random() < 0.15:
-        pts = set(x)
+    if rng.random() < 0.15 or (len(x) > 16 and rng.random() < 0.6):
+        pts = set(x) | pts
     m = rng.choice(METHODS) if rng.random() < 0.92 else rng.choice(["quadratic", "nearest", "Linear", ""])
     return {"kind": "direct", "x": [str(v) for v in x], "y": [str(v) for v in y], "new": [str(v) for v in sorted(pts)],
             "method": m, "affine": affine}
